@@ -136,3 +136,115 @@ package types
 //@   requires t != nil
 //@   assigns t.TypeName
 //@   ensures t.TypeName == name
+
+//@ # ---------------------------------------------------------------- C14 / C16 (reading a type) ---
+//@ # Name is the getter of the field SetName writes, and writes nothing; the Is* predicates decide the dynamic kind of
+//@ # their argument (what teq's per-kind unfolding and the result-type contracts of package ir case-split on) and write nothing.
+//@ func (*VoidType).Name
+//@   props C14 C16
+//@   requires t != nil
+//@   assigns nothing
+//@   ensures result == t.TypeName
+//@ func (*FuncType).Name
+//@   props C14 C16
+//@   requires t != nil
+//@   assigns nothing
+//@   ensures result == t.TypeName
+//@ func (*IntType).Name
+//@   props C14 C16
+//@   requires t != nil
+//@   assigns nothing
+//@   ensures result == t.TypeName
+//@ func (*FloatType).Name
+//@   props C14 C16
+//@   requires t != nil
+//@   assigns nothing
+//@   ensures result == t.TypeName
+//@ func (*MMXType).Name
+//@   props C14 C16
+//@   requires t != nil
+//@   assigns nothing
+//@   ensures result == t.TypeName
+//@ func (*PointerType).Name
+//@   props C14 C16
+//@   requires t != nil
+//@   assigns nothing
+//@   ensures result == t.TypeName
+//@ func (*VectorType).Name
+//@   props C14 C16
+//@   requires t != nil
+//@   assigns nothing
+//@   ensures result == t.TypeName
+//@ func (*LabelType).Name
+//@   props C14 C16
+//@   requires t != nil
+//@   assigns nothing
+//@   ensures result == t.TypeName
+//@ func (*TokenType).Name
+//@   props C14 C16
+//@   requires t != nil
+//@   assigns nothing
+//@   ensures result == t.TypeName
+//@ func (*MetadataType).Name
+//@   props C14 C16
+//@   requires t != nil
+//@   assigns nothing
+//@   ensures result == t.TypeName
+//@ func (*ArrayType).Name
+//@   props C14 C16
+//@   requires t != nil
+//@   assigns nothing
+//@   ensures result == t.TypeName
+//@ func (*StructType).Name
+//@   props C14 C16
+//@   requires t != nil
+//@   assigns nothing
+//@   ensures result == t.TypeName
+//@ func IsVoid
+//@   props C14 C16
+//@   assigns nothing
+//@   ensures result == typeis(t, "*types.VoidType")
+//@ func IsFunc
+//@   props C14 C16
+//@   assigns nothing
+//@   ensures result == typeis(t, "*types.FuncType")
+//@ func IsInt
+//@   props C14 C16
+//@   assigns nothing
+//@   ensures result == typeis(t, "*types.IntType")
+//@ func IsFloat
+//@   props C14 C16
+//@   assigns nothing
+//@   ensures result == typeis(t, "*types.FloatType")
+//@ func IsMMX
+//@   props C14 C16
+//@   assigns nothing
+//@   ensures result == typeis(t, "*types.MMXType")
+//@ func IsPointer
+//@   props C14 C16
+//@   assigns nothing
+//@   ensures result == typeis(t, "*types.PointerType")
+//@ func IsVector
+//@   props C14 C16
+//@   assigns nothing
+//@   ensures result == typeis(t, "*types.VectorType")
+//@ func IsLabel
+//@   props C14 C16
+//@   assigns nothing
+//@   ensures result == typeis(t, "*types.LabelType")
+//@ func IsToken
+//@   props C14 C16
+//@   assigns nothing
+//@   ensures result == typeis(t, "*types.TokenType")
+//@ func IsMetadata
+//@   props C14 C16
+//@   assigns nothing
+//@   ensures result == typeis(t, "*types.MetadataType")
+//@ func IsArray
+//@   props C14 C16
+//@   assigns nothing
+//@   ensures result == typeis(t, "*types.ArrayType")
+//@ func IsStruct
+//@   props C14 C16
+//@   assigns nothing
+//@   ensures result == typeis(t, "*types.StructType")
